@@ -1,10 +1,11 @@
 #!/bin/bash
 # Offline setup: build the rewriter and warm the Go build cache with one overlay build.
 set -e
+ROOT="$(cd "$(dirname "$(readlink -f "$0")")" && pwd)"
 export GOFLAGS=-mod=mod GOPROXY=off GOSUMDB=off GOTOOLCHAIN=local
-cd /verif/tools && go build -o /verif/tools/bin/rewrite ./rewrite
-mkdir -p /verif/.cache /verif/evidence /verif/replays
-OUT=$(mktemp -d /verif/.cache/build.XXXXXX)
+mkdir -p "$ROOT/tools/bin" "$ROOT/.cache" "$ROOT/evidence" "$ROOT/replays"
+cd "$ROOT/tools" && go build -o "$ROOT/tools/bin/rewrite" ./rewrite
+OUT=$(mktemp -d "$ROOT/.cache/build.XXXXXX")
 trap 'rm -rf "$OUT"' EXIT
-cd /verif && ./build.sh "$OUT"
+cd "$ROOT" && ./build.sh "$OUT"
 echo setup ok
